@@ -405,3 +405,84 @@ def var_const_decider(fold, var, value, aliases=()):
                 return None
         return None
     return decide
+
+
+# ---------------------------------------------------------------------------------- path-sensitive reachability
+NONE, NOTNONE = "None", "notNone"
+
+
+def _absval(e, state):
+    """abstract value of an expression: None-ness only"""
+    import ast as _ast
+    if isinstance(e, _ast.Constant):
+        return NONE if e.value is None else NOTNONE
+    if isinstance(e, _ast.Name):
+        return state.get(e.id)
+    if isinstance(e, (_ast.Tuple, _ast.List, _ast.Dict, _ast.Set, _ast.JoinedStr, _ast.Lambda, _ast.ListComp, _ast.DictComp,
+                      _ast.SetComp, _ast.GeneratorExp)):
+        return NOTNONE
+    return None
+
+
+def none_state_reach(starts, edge_ok=None, init=None, max_states=20000):
+    """nodes reachable from `starts` along normal edges when the None-ness of local names bound to constants, tuples or
+    other such names is tracked along each path and tests on them (`x is None`, `x is not None`, `x`, `not x` for None)
+    are decided. Returns {node id: node}. A sound over-approximation: anything not understood is 'unknown' (both edges)."""
+    import ast as _ast
+    if not isinstance(starts, (list, tuple, set)):
+        starts = [starts]
+    seen = set()
+    out = {}
+    stack = [(s, frozenset((init or {}).items())) for s in starts]
+    while stack:
+        n, fs = stack.pop()
+        if (n.id, fs) in seen:
+            continue
+        seen.add((n.id, fs))
+        if len(seen) > max_states:
+            raise RuntimeError("none_state_reach: state budget exceeded")
+        out[n.id] = n
+        st = dict(fs)
+        decided = None
+        a = n.ast
+        if n.kind == "stmt" and isinstance(a, _ast.Assign):
+            for t in a.targets:
+                if isinstance(t, _ast.Name):
+                    v = _absval(a.value, st)
+                    if v is None:
+                        st.pop(t.id, None)
+                    else:
+                        st[t.id] = v
+                elif isinstance(t, (_ast.Tuple, _ast.List)):
+                    for x in _ast.walk(t):
+                        if isinstance(x, _ast.Name):
+                            st.pop(x.id, None)
+        elif n.kind in ("stmt", "for", "with_enter", "except") and a is not None:
+            for x in _ast.walk(a if not isinstance(a, _ast.ExceptHandler) else _ast.Module(body=[], type_ignores=[])):
+                if isinstance(x, _ast.Name) and isinstance(x.ctx, (_ast.Store, _ast.Del)):
+                    st.pop(x.id, None)
+            if isinstance(a, _ast.ExceptHandler) and a.name:
+                st.pop(a.name, None)
+            if n.kind == "for" and getattr(n, "owner", None) is not None:
+                for x in _ast.walk(n.owner.target):
+                    if isinstance(x, _ast.Name):
+                        st.pop(x.id, None)
+        elif n.kind == "test":
+            e = a
+            if isinstance(e, _ast.Name) and st.get(e.id) == NONE:
+                decided = False
+            elif isinstance(e, _ast.Compare) and len(e.ops) == 1 and isinstance(e.ops[0], (_ast.Is, _ast.IsNot)):
+                l, r = _absval(e.left, st), _absval(e.comparators[0], st)
+                if l is not None and r is not None and NONE in (l, r):
+                    same = (l == r)
+                    decided = same if isinstance(e.ops[0], _ast.Is) else not same
+        nfs = frozenset(st.items())
+        for t, l in n.succ:
+            if l == "exc":
+                continue
+            if decided is True and l == "false" or decided is False and l == "true":
+                continue
+            if edge_ok is not None and not edge_ok(n, t, l):
+                continue
+            stack.append((t, nfs))
+    return out
